@@ -8,6 +8,9 @@ CONSTANTS
   Script = TRUE
   WithEnv = FALSE
   Depth = 14
+  GenActs <- ActsAll
+  Weight = 10
+  ErrFrom = 13
 INIT GenInit
 NEXT GenNext
 CONSTRAINT Emit
